@@ -8,6 +8,7 @@ import NutsProofs.Lemmas.MergeKV
 import NutsProofs.Lemmas.MergeReads
 import NutsProofs.Lemmas.MergeReopen
 import NutsProofs.Facts
+import NutsProofs.Pins.Merge
 namespace NutsProofs.C15
 open Nuts Nuts.Model Nuts.Model.DB
 
@@ -230,5 +231,9 @@ theorem C15_filter_is_regenerated (r : Rec) (now : Nat) :
           r.flag r.flag r.flag r.flag r.flag r.flag r.flag r.flag).vals == [1]) :=
   NutsProofs.Facts.isFilter_is_kernel r now
 
+
+/-- **regenerated tie.** `Merge`, its selection of the records to rewrite (filter, superseded test, per-structure liveness test), the rewrite transaction and the removal of the merged file are, on this run, the source lines the model of Merge was written from (`NutsProofs.Facts.expectedMergeStmts`). -/
+theorem C15_merge_statements_regenerated : NutsGen.F.mergeStmts = NutsProofs.Facts.expectedMergeStmts :=
+  NutsProofs.Facts.merge_stmts_ok
 
 end NutsProofs.C15
